@@ -58,6 +58,8 @@ def scan_trace(path):
                 st["par-pool:%d" % e.get("pool", 0)] += 1
                 st["par-max-results"] = max(st["par-max-results"], len(e["res"]["items"]))
         st["ledger-events"] += len(e["led"])
+        st["heap-events"] += len(e.get("heap", []))
+        st["heap-frees"] += sum(1 for h in e.get("heap", []) if h["k"] != "alloc")
         st["drops"] += sum(1 for x in e["led"] if x["k"] == "drop")
         if sample is None and op == "extend" and e["res"].get("ids"):
             sample = {k: v for k, v in e.items() if k not in ("obs",)}
